@@ -147,6 +147,10 @@ pub fn invariant(p: &VerifProbe) -> Option<(String, String)> {
     if p.loops.len() > 32 {
         return Some(("loops>32".into(), format!("{} open loops", p.loops.len())));
     }
+    if p.nesting_depth != 0 {
+        // between two host calls no expression or statement is being evaluated
+        return Some(("nesting-depth-leak".into(), format!("evaluation nesting depth is {} at a turn boundary", p.nesting_depth)));
+    }
     for (i, l) in p.loops.iter().enumerate() {
         if p.loops[..i].iter().any(|o| o.symbol == l.symbol) {
             return Some(("two-loops-same-variable".into(), format!("loop stack {:?}", p.loops.iter().map(|l| &l.symbol).collect::<Vec<_>>())));
